@@ -200,6 +200,7 @@ impl InnerInMemory {
         lookup_options: LookupOptions,
     ) -> Option<Arc<RecordSet>> {
         // Check for delegation
+        let mut delegation = None;
         let mut search_name = name.clone();
         while !search_name.is_root() {
             let ns_key = RrKey::new(search_name.clone(), RecordType::NS);
@@ -213,8 +214,9 @@ impl InnerInMemory {
                 // Request is for a DS record and we're at the delegation point.
                 // Don't return a referral, DS record resides in the parent zone.
                 (Some(_), false) if ds_exact => {}
-                // Return a delegation point: NS exists without SOA.
-                (Some(ns), false) => return Some(ns.clone()),
+                // A delegation point: NS exists without SOA. Keep walking up, the zone cut is
+                // the delegation point closest to the apex, any NS below it is occluded.
+                (Some(ns), false) => delegation = Some(ns),
                 // Zone apex: NS with SOA - we're at the top of the zone
                 (Some(_), true) => break,
                 // No NS, keep walking up.
@@ -222,6 +224,11 @@ impl InnerInMemory {
             }
 
             search_name = search_name.base_name();
+        }
+
+        // Return the delegation point.
+        if let Some(ns) = delegation {
+            return Some(ns.clone());
         }
 
         // this range covers all the records for any of the RecordTypes at a given label.
